@@ -367,15 +367,26 @@ func init() {
 				}
 				jobs = append(jobs, j)
 			}
+			// programs that may $include (once) a file holding a conditional block of its own
+			incD := []int{3, 4}
+			if tier == "thorough" {
+				incD = []int{3, 4, 5}
+			}
+			for _, d := range incD {
+				j := mkJob("/inputrc.ZZ_C13_Cond", "", "d", itoa(d), "inc", "1")
+				j.Reach = []string{"wellformed"}
+				jobs = append(jobs, j)
+			}
 			return jobs
 		},
 		Assumptions: []string{
+			"include jobs: a tenth directive kind, $include of a file served by the handler whose content is '$if mode=m<letter> / bind / $else / bind / $endif' with a symbolic letter; reference: the file takes effect iff the including block is active, it is evaluated on its own (fresh condition stack, keymap emacs) and leaves the including file's state untouched",
 			"programs are sequences of d directives over {$if mode=, $if term=, $if app, $else, $endif, set keymap, set var on|off, \"\\C-x<i>\": fn, Meta-<i>: \"macro\"}; only well-formed ones (balanced $if/$endif, at most one $else per $if) are compared",
 			"literals are chosen where GNU readline's and this library's readings coincide (terminal names without '-', lower-case application names)",
 			"handler is an empty inputrc.Config",
 		},
 		Stubs:  []string{"bufio.Scanner/bytes.Reader interpreted"},
-		Bounds: map[string]string{"quick": "program length d <= 5; directive kind per slot, condition names and the parser's (mode, term, app) symbolic", "thorough": "d <= 6"},
+		Bounds: map[string]string{"quick": "program length d <= 5; directive kind per slot, condition names and the parser's (mode, term, app) symbolic; with $include: d = 3, 4", "thorough": "d <= 6; with $include d <= 5"},
 		Rule:   "one state per completed symbolic path: directive kinds are symbolic ints, $if operands and the parser's mode/term/app are names with a symbolic letter, so which conditions hold is decided by the solver; assertions compare the real Config with the reference evaluator",
 	}
 }
